@@ -81,6 +81,10 @@ pub struct Model {
     /// clauses of the property under check stay observable for the rest of the run
     pub check_prop: String,
     pub tolerated: Vec<&'static str>,
+    /// every instant handed to `send` / `poll` so far, with the transaction (index) the call was
+    /// about: the new transaction of a `send`, the one a `poll` retransmitted; `None` for a refused
+    /// send, a non-request, a poll that answered anything else.  Used by C20's leak clause.
+    pub instants: Vec<(u64, Option<usize>)>,
 }
 
 fn v(p: &str, clause: &str, site: &str, m: String) -> Violation {
@@ -106,7 +110,7 @@ pub fn configured_schedule(tcp: bool, rto_ms: u64, n: u32, last_ms: u64) -> (Vec
 
 impl Model {
     pub fn new(tcp: bool, local: SocketAddr) -> Self {
-        Self { tcp, local, txs: vec![], validated: BTreeSet::new(), remote: None, last_wait: None, dropped_since_wait: false, check_prop: String::new(), tolerated: vec![] }
+        Self { tcp, local, txs: vec![], validated: BTreeSet::new(), remote: None, last_wait: None, dropped_since_wait: false, check_prop: String::new(), tolerated: vec![], instants: vec![] }
     }
     pub fn live_idx(&self, tid: u128) -> Option<usize> {
         self.txs.iter().position(|t| t.tid == tid && t.status == Status::Live)
@@ -132,6 +136,34 @@ impl Model {
             Ok(())
         }
     }
+    fn note_instant(&mut self, at: u64, owner: Option<usize>) {
+        if self.instants.len() >= 96 {
+            self.instants.drain(..32);
+        }
+        self.instants.push((at, owner));
+    }
+    /// C20, last sentence ("instants passed to one call do not leak into another transaction's
+    /// schedule"), model-based: called only when a `WaitUntil(t)` disagrees with the model.  The
+    /// disagreement is a *leak* — and so C20's business rather than C06's — exactly when `t` is some
+    /// outstanding transaction's current interval counted from an instant that was handed to a call
+    /// that was not about that transaction, instead of from its own last transmission.
+    fn leak_explanation(&self, t: i128) -> Option<String> {
+        for (i, tx) in self.txs.iter().enumerate() {
+            if tx.status != Status::Live || tx.rc {
+                continue;
+            }
+            let iv = (if tx.k < tx.intervals_ms.len() { tx.intervals_ms[tx.k] } else { tx.final_ms }) * MS;
+            for &(x, owner) in self.instants.iter().rev() {
+                if owner == Some(i) || x == tx.last {
+                    continue;
+                }
+                if x as i128 + iv as i128 == t {
+                    return Some(format!("WaitUntil(+{}) is transaction {:#x}'s current interval ({} ms) counted from +{}, an instant that was handed to a call that was not about this transaction; its own last transmission was at +{}", fmt_ns(t), tx.tid, iv / MS, fmt_ns(x as i128), fmt_ns(tx.last as i128)));
+                }
+            }
+        }
+        None
+    }
     fn invalidate_wait(&mut self) {
         self.last_wait = None;
         self.dropped_since_wait = false;
@@ -140,6 +172,7 @@ impl Model {
     // -------------------------------------------------------------------------------------------
     pub fn on_send_request(&mut self, tid: u128, dest: SocketAddr, bytes: &[u8], signed: bool, now: u64, reply: &Reply) -> Result<(), Violation> {
         if self.live_idx(tid).is_some() {
+            self.note_instant(now, None);
             return match reply {
                 Reply::SendErr(e) if e.contains("AlreadyInProgress") => Ok(()),
                 o => Err(v("C05", "duplicate_id_refused", "send", format!("send of a request whose id {tid:#x} is outstanding answered {}", o.short()))),
@@ -182,11 +215,14 @@ impl Model {
             transmissions: 1,
             reconfigured_mid: false,
         });
+        let idx = self.txs.len() - 1;
+        self.note_instant(now, Some(idx));
         self.invalidate_wait();
         Ok(())
     }
 
-    pub fn on_send_other(&mut self, dest: SocketAddr, bytes: &[u8], reply: &Reply) -> Result<(), Violation> {
+    pub fn on_send_other(&mut self, dest: SocketAddr, bytes: &[u8], now: u64, reply: &Reply) -> Result<(), Violation> {
+        self.note_instant(now, None);
         match reply {
             Reply::Transmit { data, from, to, tcp } => {
                 if data != bytes {
@@ -251,6 +287,11 @@ impl Model {
                         let within_sc = self.live().any(|tx| tx.sc && *t > now as i128 && *t <= tx.deadline() as i128);
                         (Some(*t) == m1.map(|m| m as i128)) || (within_sc && m1.map_or(true, |m| *t <= m as i128))
                     };
+                    if self.check_prop == "C20" && (!ok || had_pending) {
+                        if let Some(msg) = self.leak_explanation(*t) {
+                            return Err(v("C20", "no_instant_leak", "poll", msg));
+                        }
+                    }
                     if !ok && !had_pending {
                         self.soft(v("C06", "wait_value", "poll", format!("poll at +{} answered WaitUntil(+{}) but the earliest instant at which an outstanding transaction needs service is {}", fmt_ns(now as i128), fmt_ns(*t), m1.map(|m| format!("+{}", fmt_ns(m as i128))).unwrap_or("(send-cancelled only)".into()))), "foreign.C06.wait_value")?;
                     }
@@ -259,6 +300,7 @@ impl Model {
                 } else {
                     self.invalidate_wait();
                 }
+                self.note_instant(now, None);
                 Ok(PollOutcome::Wait)
             }
             Reply::Transmit { data, from, to, tcp } => {
@@ -294,6 +336,7 @@ impl Model {
                 }
                 tx.last = now;
                 tx.transmissions += 1;
+                self.note_instant(now, Some(i));
                 self.invalidate_wait();
                 Ok(PollOutcome::Retransmit(tid))
             }
@@ -314,6 +357,7 @@ impl Model {
                 let tx = &mut self.txs[i];
                 tx.status = Status::TimedOut;
                 tx.completed_at = Some(now);
+                self.note_instant(now, None);
                 self.invalidate_wait();
                 Ok(PollOutcome::TimedOut(*tid))
             }
@@ -327,6 +371,7 @@ impl Model {
                 let tx = &mut self.txs[i];
                 tx.status = Status::Cancelled;
                 tx.completed_at = Some(now);
+                self.note_instant(now, None);
                 self.invalidate_wait();
                 Ok(PollOutcome::Cancelled(*tid))
             }
